@@ -9,6 +9,7 @@ import (
 	"strings"
 	"sync"
 	"time"
+	wdog "verifharness/wd"
 
 	"github.com/goatcms/goatcore/app"
 	"github.com/goatcms/goatcore/app/bootstrap"
@@ -249,7 +250,7 @@ func RunAncestorWitness(wd *World) map[string]interface{} {
 	out := map[string]interface{}{"executed": 1, "outer_accepted": err == nil}
 	select {
 	case <-spawned:
-	case <-time.After(5 * time.Second):
+	case <-wdog.After(5 * time.Second):
 		out["note"] = "the body never ran"
 		return out
 	}
@@ -259,7 +260,7 @@ func RunAncestorWitness(wd *World) map[string]interface{} {
 	select {
 	case <-done:
 		out["manager_wait_returned"] = true
-	case <-time.After(3 * time.Second):
+	case <-wdog.After(3 * time.Second):
 		out["manager_wait_returned"] = false
 	}
 	return out
